@@ -6,6 +6,15 @@ From QV Require Import Sem Mat2 Toff2 Chain Vchain UcrPlaced TopDownWalk Cvoqram
 Import ListNotations.
 Open Scope nat_scope.
 
+(* Qiskit's RCCX (relative-phase Toffoli): |a b t> -> phase |a b (t xor ab)> with phase i on |110>, -i on |111>,
+   -1 on |101> (a = first control), 1 elsewhere.  As an operator on states: (G psi)(x) = phase(pi x) psi(pi x). *)
+Definition rccx_perm (a b t : nat) (x : asg) : asg := if get x a && get x b then flipq t x else x.
+Definition rccx_phase (a b t : nat) (x : asg) : C :=
+  if get x a then (if get x b then (if get x t then (- Ci)%C else Ci) else (if get x t then RtoC (-1) else RtoC 1))
+  else RtoC 1.
+Definition rccx (a b t : nat) (psi : state) : state :=
+  fun x => (rccx_phase a b t (rccx_perm a b t x) * psi (rccx_perm a b t x))%C.
+
 Section Sem.
 Variable U : nat -> mat2.
 Definition capp (g : cgate) (psi : state) : state :=
@@ -13,7 +22,7 @@ Definition capp (g : cgate) (psi : state) : state :=
   | CX0 q => appf (fun _ => Xm) q psi
   | CCX c t => appf (fun b => Xpow (get b c)) t psi
   | CU j cs t => fun b => if forallb (get b) cs then app1 (U j) t psi b else psi b
-  | CRCCX _ _ _ => psi          (* not used without auxiliary qubits *)
+  | CRCCX a b t => rccx a b t psi
   end.
 Definition crun (c : list cgate) (psi : state) : state := fold_left (fun s g => capp g s) c psi.
 Lemma crun_app c1 c2 psi : crun (c1 ++ c2) psi = crun c2 (crun c1 psi).
